@@ -143,9 +143,16 @@ def make_substances(sysin, labels=None):
     return out
 
 
-def make_reactions(sysin, exact=True):
+def make_reactions(sysin, exact=True, zeros=False):
+    """zeros: every substance that takes part in the system is listed on both sides of every reaction,
+    with an explicit coefficient 0 where it does not occur (a degenerate but legal way of writing it)."""
     from chempy import Reaction
     names = names_of(sysin)
+    if zeros:
+        def side_dict(nm, vec):    # noqa: F811
+            return {nm[i]: int(n) for i, n in enumerate(vec)}
+    else:
+        side_dict = globals()["side_dict"]
     out = []
     for r in sysin["rxns"]:
         k = frac(r["k"])
@@ -188,6 +195,20 @@ def observe_build(make, labels=None):
 def build_obj(sysin):
     from chempy import ReactionSystem
     return observe_build(lambda: ReactionSystem(make_reactions(sysin), make_substances(sysin)))
+
+
+def build_obj_alias(sysin, zeros=False):
+    """The system under alias keys: OrderedDict(alias -> Substance(name=label, composition)), reactions
+    over the aliases (optionally with explicit zero coefficients).  Returns (rsys, obs, sysin as the
+    library knows it: substances named by their keys)."""
+    from chempy import ReactionSystem
+    from collections import OrderedDict
+    aliases = ["s%dx" % (i + 1) for i in range(len(sysin["subs"]))] if "aliases" not in sysin else list(sysin["aliases"])[:len(sysin["subs"])]
+    subs = make_substances(sysin)
+    ain = dict(sysin, subs=[dict(x, name=a, label=x["name"]) for x, a in zip(sysin["subs"], aliases)])
+    arg = OrderedDict(zip(aliases, subs))
+    rsys, obs = observe_build(lambda: ReactionSystem(make_reactions(ain, zeros=zeros), arg))
+    return rsys, obs, ain
 
 
 CFG_KWARGS = {
@@ -347,6 +368,13 @@ def q_matrix(m):
 
 def observe_bvectors(rsys, labels=None, src="composition_balance_vectors"):
     """-> BVectors event (B entries as [n, d]); an unencodable answer is a bad event."""
+    A0, _ = rsys.composition_balance_vectors()
+    try:   # the caller may do what it likes with a returned matrix: the next answer must be unaffected
+        for row in A0:
+            for j in range(len(row)):
+                row[j] = 12345
+    except TypeError:
+        pass
     A, keys = rsys.composition_balance_vectors()
     ks = [key_to_int(k, labels) for k in keys]
     B = q_matrix(A)
